@@ -234,24 +234,25 @@ def getter_value(ex: Explorer, getter: FuncInfo, base: RF) -> RF:
     return ps[0].value
 
 
-def init_equalities(ctx: Ctx, cls: ClassInfo) -> Dict[object, object]:
+def init_equalities(ctx: Ctx, cls: ClassInfo, scope: Optional[Set[str]] = None) -> Dict[object, object]:
     """Attribute definitions fixed in __init__: atom key attr(self,f) -> key of its defining expression over
     other self attributes.  Only for attributes never written outside the constructor."""
     cache = getattr(ctx, '_init_eq', None)
     if cache is None:
         cache = ctx._init_eq = {}
-    if cls.qualname in cache:
-        return cache[cls.qualname]
+    ck = (cls.qualname, None if scope is None else len(scope))
+    if ck in cache:
+        return cache[ck]
     init = cls.lookup('__init__')
     out: Dict[object, object] = {}
     if init is None:
-        cache[cls.qualname] = out
+        cache[ck] = out
         return out
     roles = roles_of(ctx)
     ex = ctx.explorer()
     ps = normal_paths(ex.explore(init))
     if len(ps) != 1:
-        cache[cls.qualname] = out
+        cache[ck] = out
         return out
     selfk = ('var', init.param_names[0])
     heap = ps[0].state.heap
@@ -262,22 +263,34 @@ def init_equalities(ctx: Ctx, cls: ClassInfo) -> Dict[object, object]:
             a = v.single_atom()
             if isinstance(a, tuple) and a and a[0] == 'var' and a[1] != selfk[1]:
                 pmap[a] = ('attr', selfk, fld, 0)
+            elif isinstance(a, tuple) and a and a[0] == 'call':
+                pmap.setdefault(a, ('attr', selfk, fld, 0))      # self.f = np.copy(param): the copy *is* self.f
     written_elsewhere = set()
     for m in roles.mutations():
         if m.kind in ('attr', 'aug') and not m.init_self and isinstance(m.field, str):
+            if scope is not None and roles.fq(m.func) not in scope:
+                continue        # a writer the callers of interest can never reach
             if any(o.cls is not None and o.cls.is_subclass_of(cls) for o in m.bases):
                 written_elsewhere.add(m.field)
     for (bk, fld), v in heap.items():
         if bk != selfk or fld in written_elsewhere or not isinstance(v, RF):
             continue
         a = v.single_atom()
-        if isinstance(a, tuple) and a and a[0] == 'var':
+        if isinstance(a, tuple) and a and a[0] in ('var', 'call'):
             continue
         nv = subst_rf(v, pmap)
-        # only pure attribute chains / constants are worth propagating
-        if all(isinstance(x, tuple) and x and x[0] in ('attr', 'var', 'const') for x in nv.atoms()):
+        # only pure attribute chains / constants are worth propagating, and only if nothing the definition
+        # mentions can be rewritten after construction (a cached value would be stale otherwise)
+        def stable(x) -> bool:
+            if not (isinstance(x, tuple) and x):
+                return True
+            if x[0] == 'attr' and x[1] == selfk and x[2] in written_elsewhere:
+                return False
+            return all(stable(y) for y in x if isinstance(y, tuple))
+        if all(isinstance(x, tuple) and x and x[0] in ('attr', 'var', 'const') for x in nv.atoms()) and \
+                all(stable(x) for x in nv.atoms()):
             out[('attr', selfk, fld, 0)] = key_of(nv)
-    cache[cls.qualname] = out
+    cache[ck] = out
     return out
 
 
@@ -350,3 +363,10 @@ def strip_rf(rf: RF) -> RF:
             tot = tot + t
         return tot
     return poly(rf.num) / poly(rf.den)
+
+
+def fmt_key_safe(k) -> str:
+    try:
+        return fmt_key(k)
+    except Exception:
+        return str(k)
